@@ -140,6 +140,10 @@ fn phrase(rng: &mut Rng) -> String {
     if rng.chance(0.1) {
         parts.push("(x;y)".to_string());
     }
+    if rng.chance(0.08) {
+        // free text may contain, or end in, the characters of a record terminator
+        parts.push((*rng.pick(&["MyoD//E12//", "a//b", "//", "http://x.org/", "XX", "P0"])).to_string());
+    }
     parts.join(" ")
 }
 
